@@ -53,6 +53,11 @@ Theorem C18_pct_decode_encode :
   forall bs : list N, Forall is_byte bs -> percent_decode (percent_encode bs) = Some bs.
 Proof. exact percent_decode_encode. Qed.
 
+(* the encoding is injective: two different byte strings never share an encoding *)
+Theorem C18_pct_encode_injective :
+  forall a b : list N, Forall is_byte a -> Forall is_byte b -> percent_encode a = percent_encode b -> a = b.
+Proof. exact percent_encode_injective. Qed.
+
 (* pct_decode_iff: decode succeeds exactly on the strings in which every "%" is followed by two hexadecimal digits
    (either case), and then returns the denoted bytes; otherwise it returns None. *)
 Theorem C18_pct_decode_iff :
@@ -103,6 +108,7 @@ Print Assumptions C18_pct_encode_concat.
 Print Assumptions C18_pct_upper_hex_digit_chars.
 Print Assumptions C18_pct_encode_alphabet.
 Print Assumptions C18_pct_decode_encode.
+Print Assumptions C18_pct_encode_injective.
 Print Assumptions C18_pct_decode_iff.
 Print Assumptions C18_pct_decode_none_iff.
 Print Assumptions C18_pct_decode_iff_grammar.
